@@ -193,7 +193,7 @@ def run(pid, tier, seed, args, t0):
                     tool.append((src, v, f))
                 elif f["p"] == "DRIFT":
                     drift += 1
-                elif f["p"] == "XL" and pid == "C10":
+                elif f["p"] == "XL" and (pid == "C10" or f["w"] == "nondeterministic"):
                     extra[f["w"]] = extra.get(f["w"], 0) + 1
         idxs = set(v["idx"] for v, _ in mine)
         evs = events_for(os.path.join(m["dir"], "trace.ndjson"), idxs)
@@ -277,7 +277,8 @@ def run(pid, tier, seed, args, t0):
     if pid == "C10":
         cov["extra_layout_invariants_failed"] = extra
         if extra:
-            log("NOTE: extra layout invariants (not part of C10) failed on some outputs: %s" % json.dumps(extra, sort_keys=True))
+            log("NOTE: extra invariants (outside the listed properties: layout extras, format_code being a function of its arguments) "
+                "failed on some outputs: %s" % json.dumps(extra, sort_keys=True))
     cov["known_findings_reobserved"] = sorted(seen_known.keys())
     cov["rule"] = ("cases = terminal behaviours of the TLC generator models (exhaustive within the cfg constants) plus the repository's "
                    "test inputs; each is replayed under every configuration of its sweep; distinct_nontrivial = distinct cases whose "
